@@ -190,13 +190,6 @@ func flight4Parse(
 		cfg.WriteKeyLog(keyLogLabel, clientRandom[:], state.MasterSecret)
 	}
 
-	if len(state.SessionID) > 0 {
-		cfg.Log.Tracef("[handshake] save new session: %x", state.SessionID)
-		if err := cfg.SetSession(state.SessionID, state.SessionID, state.MasterSecret); err != nil {
-			return 0, &alert.Alert{Level: alert.Fatal, Description: alert.InternalError}, err
-		}
-	}
-
 	// Now, encrypted packets can be handled
 	if err := conn.HandleQueuedPackets(ctx); err != nil {
 		return 0, &alert.Alert{Level: alert.Fatal, Description: alert.InternalError}, err
@@ -241,6 +234,9 @@ func flight4Parse(
 				return 0, &alert.Alert{Level: alert.Fatal, Description: alert.BadCertificate}, err
 			}
 		}
+		if a, err := flight4SaveSession(state, cfg); err != nil {
+			return 0, a, err
+		}
 
 		return Flight6, nil, nil
 	}
@@ -269,8 +265,25 @@ func flight4Parse(
 			return 0, &alert.Alert{Level: alert.Fatal, Description: alert.BadCertificate}, err
 		}
 	}
+	if a, err := flight4SaveSession(state, cfg); err != nil {
+		return 0, a, err
+	}
 
 	return Flight6, nil, nil
+}
+
+// flight4SaveSession makes the session resumable. It runs only once the client's
+// Finished has been verified and the client authentication policy is satisfied:
+// a session stored earlier could be resumed by a peer that never completed either.
+func flight4SaveSession(state *dtlsstate.State12, cfg *dtlsconfig.HandshakeConfig) (*alert.Alert, error) {
+	if len(state.SessionID) > 0 {
+		cfg.Log.Tracef("[handshake] save new session: %x", state.SessionID)
+		if err := cfg.SetSession(state.SessionID, state.SessionID, state.MasterSecret); err != nil {
+			return &alert.Alert{Level: alert.Fatal, Description: alert.InternalError}, err
+		}
+	}
+
+	return nil, nil
 }
 
 //nolint:gocognit,cyclop,maintidx
